@@ -367,10 +367,19 @@ func animOne(c *ev.Ctx, cs ev.Case, lossyAlpha bool) {
 				dm = animation.DisposeBackground
 			}
 			dur := 1 + r.Intn(500)
+			if r.Intn(6) == 0 {
+				dur = pickI(r, 0xFFFFFF, 0x1000000, 0x1000001) // at and above what one frame can hold
+			}
 			if viaAddFrame {
 				err = e.AddFrame(animation.NewBitstreamFrame(bs, fw, fh), time.Duration(dur)*time.Millisecond)
 			} else {
 				err = e.AddRawFrame(bs, time.Duration(dur)*time.Millisecond, ox, oy, bm, dm)
+			}
+			if err != nil && dur > 0xFFFFFF {
+				// a pre-encoded frame cannot be split into picture + filler frames: refusing a duration the format
+				// cannot store is the honest answer (storing another one silently is not)
+				c.Count("raw_frame_duration_above_maximum_refused", 1)
+				continue
 			}
 			if err != nil {
 				c.Violate(cs, "addrawframe-error", nil, fmt.Sprintf("raw frame %d (%dx%d at %d,%d, via AddFrame=%v): %v", k, fw, fh, ox, oy, viaAddFrame, err), nil)
@@ -411,6 +420,10 @@ func animOne(c *ev.Ctx, cs ev.Case, lossyAlpha bool) {
 	}
 	h.Canvases, h.Durations, h.Steps = outCanv, outDur, outSteps
 	cs.Desc = fmt.Sprintf("canvas %dx%d %v opts=%+v", h.CW, h.CH, h.Steps, h.Opts)
+	if len(outCanv) == 0 { // every pre-encoded frame of a raw-only history was refused (durations above the maximum)
+		c.Count("histories_without_any_accepted_frame", 1)
+		return
+	}
 	if err := e.Close(); err != nil {
 		c.Violate(cs, "close-error", nil, err.Error(), nil)
 		return
